@@ -10,12 +10,28 @@
 -/
 namespace NemoVerif.Dispatch
 
-/-- What calling the registered python callable does. -/
+/-- An exception VALUE, as far as the dispatcher's handler looks at it: its message `str(e)` — any
+    string, in particular the empty one (`TimeoutError()`, a bare `assert`, `raise ValueError()`) and
+    multi-line ones. -/
+structure Exn where
+  msg : String
+  deriving Repr, DecidableEq
+
+/-- What calling the registered python callable (sync or async function, class-based action) does. -/
 inductive Outcome (α : Type) where
   | ret (v : α)
-  | raise
+  | raise (e : Exn)
   | llmRaise
   deriving Repr, DecidableEq
+
+/-- What the `except Exception` handler computes on the exception before it falls through to
+    `return None, "failed"`: the arguments of `log.warning("Error while execution '%s' with parameters
+    '%s': %s", action_name, filtered_params, e)` — `%s`-formatting of the exception object, a TOTAL
+    function of the message (no indexing, no parsing).  `harness/translate/c01.py::static_tie` checks on
+    every run that the handler in the source contains no partial operation (subscript, calls other than
+    `log.*` / `.items()`), which is the tie for this totality. -/
+def handlerLog (actionName : String) (e : Exn) : String :=
+  "Error while execution '" ++ actionName ++ "': " ++ e.msg
 
 inductive Status where
   | success | failed
@@ -33,7 +49,9 @@ def execute {α : Type} (registered : Option (Outcome α)) : Except Escaped (Opt
   | none => .ok (none, .failed)
   | some (.ret v) => .ok (some v, .success)
   | some .llmRaise => .error .llmCallException
-  | some .raise => .ok (none, .failed)
+  | some (.raise e) =>
+    let _record := handlerLog "" e   -- logged, then control falls through
+    .ok (none, .failed)
 
 /-- What the runtimes make of `(result, status)`:
     `if status == "failed": result = self._internal_error_action_result(...)`. -/
